@@ -625,6 +625,32 @@ def gen_slv_cfg(rng, tier, purpose, n_quick, n_thorough):
             cfgs += rand_config(rng, ns, identity_order=(purpose not in ("c14",) and rng.random() < 0.7))
         t = [kind, "cfg"] + solver_mech_tokens(names, atol, rxns) + pt + [fnum(x) for x in w] + [str(ncfg)] + cfgs
         out.append(" ".join(t))
+    if purpose in ("c09", "c12"):
+        out += _hub_cases(rng, purpose)
+    return out
+
+
+def _hub_cases(rng, purpose):
+    """a mechanism of more than 256 species in which one species (an oxidant) reacts with every other one:
+    X0 + Xi -> X0 + X(i+1) conserves the number of molecules; the rows of X0 in the Jacobian and in its factors hold
+    more than 255 elements (counters or index tables narrower than size_t wrap there).  Separate and in-place LU."""
+    out = []
+    for kind, lu in (("slvr", 0), ("slvb", 2)):
+        ns = rng.choice([258, 261, 270])
+        names = list(range(100, 100 + ns))
+        atol = [-1.0] * ns
+        rxns = [(0, [(0, 0), (i, 0)], [(0, 1.0), ((i % (ns - 1)) + 1, 1.0)]) for i in range(1, ns)]
+        w = [1.0] * ns
+        y0 = [1.0] + [rng.choice([0.5, 1.0, 2.0]) for _ in range(ns - 1)]
+        k = [rng.choice([0.05, 0.1, 0.2]) for _ in rxns]
+        pt = ["1", "1", fnum(300.0), fnum(101325.0), fnum(1.0), "1", fnum(1e-6), fnum(0.0), "0" if purpose == "c09" else "1"]
+        pt += [fnum(v) for v in y0] + [fnum(v) for v in k]
+        cfgs = []
+        ncfg = 2 if purpose == "c12" else 1
+        for j in range(ncfg):
+            cfgs += [str(0 if j == 0 else 2), "0", str(lu if j == 0 else (1 if lu == 0 else 3)), "1"] + list(map(str, range(ns)))
+        t = [kind, "cfg"] + solver_mech_tokens(names, atol, rxns) + pt + [fnum(x) for x in w] + [str(ncfg)] + cfgs
+        out.append(" ".join(t))
     return out
 
 
